@@ -16,9 +16,8 @@ S7 = "CharReader::read_chunk -> same body with an 8-byte stack buffer"
 
 # quick core: every boundary named in DESIGN (compaction branch buf.len in 5..7 with pos on both
 # sides of 4, empty buffer, exhausted buffer, EOF with an incomplete remainder)
-CORE = {(5, 2, 1), (5, 2, 0), (5, 3, 2), (5, 4, 1), (5, 5, 3), (6, 5, 2), (7, 6, 1), (7, 3, 0),
-        (0, 0, 0), (0, 0, 3), (1, 0, 0), (1, 0, 3), (2, 1, 0), (3, 0, 1), (4, 4, 4), (4, 1, 0),
-        (8, 8, 2), (8, 5, 0), (6, 2, 4), (2, 2, 0)}
+CORE = {(5, 2, 1), (5, 2, 0), (1, 0, 0), (5, 5, 3), (6, 5, 2), (0, 0, 0), (0, 0, 3), (4, 1, 0),
+        (7, 3, 0), (8, 8, 2), (3, 0, 1)}
 
 
 def harnesses():
@@ -27,8 +26,8 @@ def harnesses():
     extra = set()
     rest = [t for t in trip if t not in CORE]
     s = seed()
-    # VERIF_SEED adds 6 further lattice points to the quick tier
-    for i in range(6):
+    # VERIF_SEED adds 2 further lattice points to the quick tier
+    for i in range(2):
         extra.add(rest[(s * 7919 + i * 104729) % len(rest)])
     for bl, pos, cl in trip:
         quick = (bl, pos, cl) in CORE or (bl, pos, cl) in extra
@@ -40,7 +39,7 @@ def harnesses():
                           bounds="buffer and chunk bytes symbolic", stubs=(S7,),
                           covers_required=False))
     for bl, pos in gen_c18.putbacks():
-        quick = (bl, pos) in {(0, 0), (4, 4), (5, 2), (6, 6), (3, 1)}
+        quick = (bl, pos) in {(0, 0), (5, 2)}
         hs.append(Harness(SRC, MOD, "c18_putback_%d_%d" % (bl, pos), cost=60, timeout=1200,
                           tiers=Q if quick else T,
                           desc="put_back_char(any char) from (buf.len=%d,pos=%d) then peek "
@@ -64,8 +63,8 @@ ASSUME = [
     "sizes (buf.len, pos, chunk length) are enumerated constants, every byte is symbolic",
 ]
 BOUNDS = ("lattice buf.len 0..8 x pos 0..buf.len x chunk 0..4 = 225 states (thorough: all; quick: "
-          "20 core states around the compaction branch and EOF + 6 chosen by VERIF_SEED); "
-          "put_back from 28 states (quick 5); unwind 14")
+          "11 core states around the compaction branch and EOF + 2 chosen by VERIF_SEED); "
+          "put_back from 28 states (quick 2); unwind 14")
 OUTSIDE = ("unread remainders longer than 8 bytes; more than one further read; "
            "InputChannelStream/socket plumbing; Read::read/read_exact/read_vectored paths")
 
